@@ -42,6 +42,8 @@ def shapes(tier):
                 S.add((m, k, n))
     S |= {(5, 5, 5), (6, 6, 6), (8, 8, 8), (9, 9, 9), (5, 3, 9), (3, 5, 7), (7, 7, 2), (2, 6, 6), (6, 2, 5), (4, 4, 17), (9, 4, 5), (13, 13, 13) if tier != 'quick' else (5, 5, 5),
           (12, 12, 12) if tier != 'quick' else (6, 6, 6), (10, 7, 11) if tier != 'quick' else (3, 5, 7), (16, 16, 16) if tier != 'quick' else (8, 8, 8), (5, 9, 33) if tier != 'quick' else (5, 3, 9)}
+    # rows beyond the 4-row register blocks ([M0,M1) row block of the masked kernel, M >= 20) with 2..7 remainder columns
+    S |= {(20, 11, 11), (21, 12, 12), (23, 5, 13)}
     return sorted(S)
 
 
